@@ -9,7 +9,7 @@
    Repaired behaviour is modelled for all nine findings of known_findings.d/C11.json:
    C11-bucket-negative-multiple, C11-divi-zero, C11-substr-overflow, C11-hi-minint64,
    C11-expbucket-float, C11-hf-rounding, C11-bytesize-uint64-wrap, C11-ceil-overflow,
-   C11-andor-emptiness. *)
+   C11-andor-emptiness, C11-precision-unbounded. *)
 From Coq Require Import List NArith ZArith Bool.
 From RareV Require Import Base.Hex Base.Res Base.Num Gen.GenC11 Model.Humanize Model.CsvItem.
 Import ListNotations.
@@ -207,11 +207,17 @@ Definition f_ceilfloor (up : bool) (args : list arg) : result bytes :=
   | _ => ok ErrorArgCount
   end.
 
+(* a constant precision beyond maxPrecision gives <VALUE> (repair C11-precision-unbounded) *)
+Definition precision_ok (p : Z) : bool := (p <=? maxPrecision)%Z.
+
 Definition f_round (args : list arg) (orc : bytes) : result bytes :=
   let body a := if is_some (a_f a) then ok orc else ok ErrorNum in
   match args with
   | [a] => body a
-  | [a; p] => match static_int p with None => ok ErrorConst | Some _ => body a end
+  | [a; p] => match static_int p with
+              | None => ok ErrorConst
+              | Some pv => if precision_ok pv then body a else ok ErrorValue
+              end
   | _ => ok ErrorArgCount
   end.
 
@@ -461,7 +467,10 @@ Definition f_unitize (unsigned : bool) (step : Z) (delim : bytes) (units : list 
     end in
   match args with
   | [a] => body a
-  | [a; p] => match static_int p with None => ok ErrorNum | Some _ => body a end
+  | [a; p] => match static_int p with
+              | None => ok ErrorNum
+              | Some pv => if precision_ok pv then body a else ok ErrorValue
+              end
   | _ => ok ErrorArgCount
   end.
 
@@ -469,7 +478,11 @@ Definition f_percent args (orc : bytes) : result bytes :=
   let run (v : arg) (bounds : list arg) :=
     if existsb const_bad_float bounds then ok ErrorNum
     else if all_float bounds && is_some (a_f v) then ok orc else ok ErrorNum in
-  let dec (d : arg) (k : result bytes) := match static_int d with None => ok ErrorConst | Some _ => k end in
+  let dec (d : arg) (k : result bytes) :=
+    match static_int d with
+    | None => ok ErrorConst
+    | Some pv => if precision_ok pv then k else ok ErrorValue
+    end in
   match args with
   | [v] => run v []
   | [v; d] => dec d (run v [])
